@@ -692,13 +692,18 @@ func foreignCacheCase(id int, seed int64, out *json.Encoder) {
 	out.Encode(e)
 }
 
-func flushFamily(seed int64, n int, out *json.Encoder, budget int, scen int) {
-	rng := rand.New(rand.NewSource(seed))
+func flushFamily(seed int64, n int, out *json.Encoder, budget int, scen int, part, parts int) {
+	// every case draws from its own generator, so that the cases can be split over several driver processes (part of parts)
 	id := 0
+	mine := func() bool { return parts <= 1 || id%parts == part }
 	// 1. exhaustive schedules of small scenarios
 	per := budget / scen
 	for i := 0; i < scen; i++ {
 		id++
+		if !mine() {
+			continue
+		}
+		rng := rand.New(rand.NewSource(seed*31 + int64(id)))
 		sc := flushScenario{id: id, seed: seed*7919 + int64(i), kind: "sched", bf: 2, nkeys: 5 + rng.Intn(6),
 			premods: []int{0, 0, 6, 10}[rng.Intn(4)], mods: 2 + rng.Intn(5), cache: []string{"none", "large", "tiny"}[rng.Intn(3)]}
 		b := per
@@ -707,6 +712,10 @@ func flushFamily(seed int64, n int, out *json.Encoder, budget int, scen int) {
 	// 2. large trees with random completion order, delays and failures (saturates the gate)
 	for i := 0; i < n; i++ {
 		id++
+		if !mine() {
+			continue
+		}
+		rng := rand.New(rand.NewSource(seed*31 + int64(id)))
 		sc := flushScenario{id: id, seed: seed*104729 + int64(i), kind: "big", bf: []uint{2, 3, 4}[rng.Intn(3)], nkeys: 150 + rng.Intn(300),
 			premods: []int{0, 200}[rng.Intn(2)], mods: 120 + rng.Intn(200), cache: []string{"none", "large"}[rng.Intn(2)]}
 		runSchedule(sc, nil, out, rng)
@@ -715,6 +724,10 @@ func flushFamily(seed int64, n int, out *json.Encoder, budget int, scen int) {
 	// reports, a success must be complete
 	for i := 0; i < n; i++ {
 		id++
+		if !mine() {
+			continue
+		}
+		rng := rand.New(rand.NewSource(seed*31 + int64(id)))
 		sc := flushScenario{id: id, seed: seed*611953 + int64(i), kind: "cancel", bf: []uint{2, 3, 4}[rng.Intn(3)], nkeys: 40 + rng.Intn(100),
 			premods: []int{0, 60}[rng.Intn(2)], mods: 30 + rng.Intn(80), cache: []string{"none", "large"}[rng.Intn(2)], cancelAt: rng.Intn(12)}
 		runSchedule(sc, nil, out, rng)
@@ -722,6 +735,9 @@ func flushFamily(seed int64, n int, out *json.Encoder, budget int, scen int) {
 	// 3. a cache shared between two stores
 	for i := 0; i < n; i++ {
 		id++
+		if !mine() {
+			continue
+		}
 		foreignCacheCase(id, seed*15485863+int64(i), out)
 	}
 }
